@@ -1,6 +1,7 @@
 package conversion
 
 import (
+	"sort"
 	"strings"
 
 	"github.com/flant/shell-operator/pkg/utils/string_helper"
@@ -58,55 +59,88 @@ func (cs ChainStorage) FindConversionChain(crdName string, rule Rule) []Rule {
 		return nil
 	}
 
-	for {
-		p := chain.SearchPathForRule(rule)
-		if len(p) > 0 {
-			return p
+	// A path for exactly this spelling of the rule is already known.
+	if p, ok := chain.PathsCache[rule]; ok {
+		return p
+	}
+
+	path := chain.searchChain(rule)
+
+	// Remember the multi-step prefixes of the found path.
+	for i := 2; i <= len(path); i++ {
+		key := Rule{FromVersion: rule.FromVersion, ToVersion: path[i-1].ToVersion}
+		if _, ok := chain.PathsCache[key]; !ok {
+			chain.PathsCache[key] = append([]Rule{}, path[:i]...)
 		}
+	}
 
-		// A temporary map to fill the cache later with more calculated paths.
-		newPaths := map[Rule][]Rule{}
+	return path
+}
 
-		// Try only paths that starts from a similar FromVersion as in input rule.
-		for _, ruleToCheck := range chain.RulesWithSimilarFromVersion(rule) {
-			if ruleToCheck.ShortToVersion() == rule.ShortFromVersion() {
-				// Ignore loops.
+// searchChain runs a breadth-first search over the declared base rules and
+// returns the shortest sequence of rules that starts at rule.FromVersion,
+// ends at rule.ToVersion and in which every step starts where the previous
+// one ended. Versions are compared with VersionsMatched, which is a pairwise
+// relation (stable/v1 ~ v1 and v1 ~ unstable/v1, but stable/v1 !~ unstable/v1),
+// so the search walks over rules, not over version names, and paths found for
+// one spelling of a version are not reused for another.
+func (c Chain) searchChain(rule Rule) []Rule {
+	// Declared rules in a stable order; exact spellings are tried first.
+	baseRules := make([]Rule, 0)
+	for fromVer, toVers := range c.BaseFromToIndex {
+		for toVer := range toVers {
+			baseRules = append(baseRules, Rule{FromVersion: fromVer, ToVersion: toVer})
+		}
+	}
+	sort.Slice(baseRules, func(i, j int) bool {
+		if baseRules[i].FromVersion != baseRules[j].FromVersion {
+			return baseRules[i].FromVersion < baseRules[j].FromVersion
+		}
+		return baseRules[i].ToVersion < baseRules[j].ToVersion
+	})
+
+	// nextRules returns indices of not yet visited rules starting at ver.
+	visited := make([]bool, len(baseRules))
+	nextRules := func(ver string) []int {
+		exact := make([]int, 0)
+		similar := make([]int, 0)
+		for i, r := range baseRules {
+			if visited[i] {
 				continue
 			}
-
-			// toVersion in ruleIDToCheck is a new start. Get toVersions available starting from it.
-			for _, nextRule := range chain.NextRules(ruleToCheck.ToVersion) {
-				newRule := Rule{
-					FromVersion: rule.FromVersion,
-					ToVersion:   nextRule.ToVersion,
-				}
-
-				if newRule.ShortToVersion() == rule.ShortFromVersion() {
-					// Ignore loops.
-					continue
-				}
-
-				//nolint
-				newPath := append(chain.PathsCache[ruleToCheck], nextRule)
-
-				// This path is already discovered.
-				p := chain.SearchPathForRule(newRule)
-				if len(p) != 0 {
-					continue
-				}
-
-				newPaths[newRule] = newPath
+			switch {
+			case r.FromVersion == ver:
+				exact = append(exact, i)
+			case VersionsMatched(r.FromVersion, ver):
+				similar = append(similar, i)
 			}
 		}
+		return append(exact, similar...)
+	}
 
-		// break if no new paths are discovered.
-		if len(newPaths) == 0 {
-			break
+	prev := make([]int, len(baseRules))
+	queue := nextRules(rule.FromVersion)
+	for _, i := range queue {
+		visited[i] = true
+		prev[i] = -1
+	}
+
+	for len(queue) > 0 {
+		cur := queue[0]
+		queue = queue[1:]
+
+		if VersionsMatched(baseRules[cur].ToVersion, rule.ToVersion) {
+			path := make([]Rule, 0)
+			for i := cur; i != -1; i = prev[i] {
+				path = append([]Rule{baseRules[i]}, path...)
+			}
+			return path
 		}
 
-		// Put new paths in cache.
-		for pathKey, path := range newPaths {
-			chain.PathsCache[pathKey] = path
+		for _, i := range nextRules(baseRules[cur].ToVersion) {
+			visited[i] = true
+			prev[i] = cur
+			queue = append(queue, i)
 		}
 	}
 
